@@ -56,6 +56,8 @@ func C32(e *simkern.Env) {
 		var history []string
 		seenRange := map[string]int{}
 		nonOK := 0
+		firstNonOK := 0 // ranges whose first request is answered with something else than the data
+		planned := map[*fetchw.Parked]string{}
 		anomalies := map[string]int{}
 		origin := &fetchw.Origin{Sim: sim}
 		origin.Serve = func(x *fetchw.Exchange, req *http.Request) (*http.Response, error) {
@@ -76,9 +78,10 @@ func C32(e *simkern.Env) {
 				x.Outcome = "ranges"
 				return fetchw.Response(req, 200, h, fetchw.Exact(resource)), nil
 			}
+			seenRange[x.Range]++
+			attempt := seenRange[x.Range]
 			if x.Range != "" {
-				seenRange[x.Range]++
-				if seenRange[x.Range] > 1 {
+				if attempt > 1 {
 					sim.Probe("hedge-request")
 				}
 			} else {
@@ -86,6 +89,28 @@ func C32(e *simkern.Env) {
 			}
 			p := &fetchw.Parked{X: x, Req: req, IssuedAt: sim.Steps}
 			parked = append(parked, p)
+			// What this request will be answered with is fixed when it arrives
+			// (the scheduler still decides when, and in which order): the k-th
+			// request for a range gets the k-th planned answer for that range,
+			// so "what the fetch would have seen without hedged duplicates" is
+			// well defined — the first planned answer of every range.
+			kind := "ok"
+			if faultsOn {
+				kinds := []string{"ok", "chunk-error", "wrong-status", "body-cut"}
+				wts := []int{12, 1, 1, 1}
+				if x.Range != "" {
+					kinds = append(kinds, "short-body", "whole-body-200")
+					wts = append(wts, 1, 1)
+				}
+				if attempt > 1 {
+					wts[0] = 5 // duplicates fail more often than first requests
+				}
+				kind = kinds[tp.Weighted(wts)]
+			}
+			planned[p] = kind
+			if attempt == 1 && kind != "ok" {
+				firstNonOK++
+			}
 			return fetchw.Await(sim, p)
 		}
 
@@ -192,18 +217,8 @@ func C32(e *simkern.Env) {
 				und := undecided()
 				for _, p := range und {
 					p := p
-					acts = append(acts, simkern.Action{Name: fmt.Sprintf("answer r%d ok", p.X.N), Weight: 12, Do: func() { answer(p, "ok") }})
-					if !faultsOn {
-						continue
-					}
-					kinds := []string{"chunk-error", "wrong-status", "body-cut"}
-					if p.X.Range != "" {
-						kinds = append(kinds, "short-body", "whole-body-200")
-					}
-					for _, k := range kinds {
-						k := k
-						acts = append(acts, simkern.Action{Name: fmt.Sprintf("answer r%d %s", p.X.N, k), Weight: 1, Do: func() { answer(p, k) }})
-					}
+					k := planned[p]
+					acts = append(acts, simkern.Action{Name: fmt.Sprintf("answer r%d %s", p.X.N, k), Weight: 12, Do: func() { answer(p, k) }})
 				}
 				if len(und) > 0 {
 					// latency: time passes while requests are in flight
@@ -244,6 +259,11 @@ func C32(e *simkern.Env) {
 				// nothing failed: without hedging this fetch succeeds, so with
 				// hedged duplicates (all answered correctly too) it must as well
 				e.Violate("error-although-every-answer-was-correct", site, "%s: returned error %q", desc, gotErr.Error())
+			} else if firstNonOK == 0 && headMode != "head-error" && int64(size) <= maxFetch {
+				// every range's first request was (or was going to be) answered
+				// with its data: without hedged duplicates this fetch succeeds. Only
+				// answers to duplicates went wrong — they must not change the result.
+				e.Violate("failed-duplicate-changed-the-result", site, "%s: returned error %q although the first request of every range is answered correctly (only hedged duplicates failed)", desc, gotErr.Error())
 			}
 		case reason == simkern.StopDeadlock:
 			// every issued request has been answered (or cancelled), no task is
@@ -297,7 +317,7 @@ func init() {
 	Registry["C32"] = &Info{
 		Run:   C32,
 		Level: "exploration",
-		Rule:  "each run draws a resource of 6-60 distinct bytes, a chunk size giving 2-6 chunks, the parallelism limit {1,2,3,8}, the hedge multiplier {off,0.5,1,2} and hedge budget, the HEAD behaviour (ranges / no ranges / error) and whether faults are enabled; every chunk request and every hedge is a task parked inside the RoundTripper until the scheduler answers it (ok / connection error / honestly announced short body / whole body with 200 / wrong status / body cut mid-way), in any order, with simulated latency (5 ms - 3 s clock advances) between answers so that hedges fire; the run ends when the call returns, or when every request is answered, nothing is runnable and ten simulated minutes pass; distinct = distinct schedule+answer fingerprint; non-trivial = a non-ok answer was given or two tasks were runnable at once",
+		Rule:  "each run draws a resource of 6-60 distinct bytes, a chunk size giving 2-6 chunks, the parallelism limit {1,2,3,8}, the hedge multiplier {off,0.5,1,2} and hedge budget, the HEAD behaviour (ranges / no ranges / error) and whether faults are enabled; every chunk request and every hedge is a task parked inside the RoundTripper until the scheduler answers it, in any order, with the answer that was planned for it when it arrived (the k-th request for a range gets that range's k-th planned answer: ok / connection error / short body announced honestly, or streamed without Content-Length under an honest or a full Content-Range / whole body with 200 / wrong status / body cut mid-way; duplicates fail more often than first requests), so that what the fetch would have seen without hedged duplicates is well defined, with simulated latency (5 ms - 3 s clock advances) between answers so that hedges fire; the run ends when the call returns, or when every request is answered, nothing is runnable and ten simulated minutes pass; distinct = distinct schedule+answer fingerprint; non-trivial = a non-ok answer was given or two tasks were runnable at once",
 		Real:  []string{"vgirpc.FetchWithParallelRangeRequests (receive loop, hedging, semaphore, cancellation, reassembly), fetchSimple", "net/http.Client", "testing/synctest clock (hedge thresholds)"},
 		Stub:  []string{"origin behind http.RoundTripper with scheduler-completed requests (fetchw.Origin/Parked)"},
 		Quick: 4000, Thorough: 600000,
